@@ -1209,3 +1209,35 @@ func init() {
 		return &TupleVal{[]Val{Add(Mul(SelField(ts, si), IntLit(nanos)), SelField(ts, ni)), x.freshTerm("tserr", SErr)}}
 	}
 }
+
+// ---------------- decimal parsing: strconv.ParseInt / ParseUint with base 10 and 64 bits are functions of the string
+// (parse_int, parse_uint; success = parse_int_ok / parse_uint_ok), inverse to the decimal rendering fmt_int that
+// FormatInt / Itoa / Sprintf("%d") give, and an unsigned number below 2^63 parses as a signed one with the same value.
+func init() {
+	parse := func(signed bool) TheoryFn {
+		return func(x *Exec, f *Frame, st *State, c *CallInfo) Val {
+			s, base, bits := c.T(0), c.T(1), c.T(2)
+			if s == nil || base == nil || bits == nil || !base.IsLit() || base.Lit.Int64() != 10 || !bits.IsLit() || bits.Lit.Int64() != 64 {
+				return x.freshVal(st, c.ResTyp, "parsed")
+			}
+			two63 := BigLit(new(big.Int).Lsh(big.NewInt(1), 63))
+			two64 := BigLit(new(big.Int).Lsh(big.NewInt(1), 64))
+			pi, pu := UF("parse_int", SInt, s), UF("parse_uint", SInt, s)
+			iok, uok := UF("parse_int_ok", SBool, s), UF("parse_uint_ok", SBool, s)
+			st.assume(And(Ge(pi, Neg(two63)), Lt(pi, two63), Ge(pu, IntLit(0)), Lt(pu, two64)))
+			st.assume(Implies(And(uok, Lt(pu, two63)), And(iok, Eq(pi, pu))))
+			v := NewBound("v", SInt)
+			fv := UF("fmt_int", SStr, v)
+			st.assume(Forall(v, Implies(And(Ge(v, Neg(two63)), Lt(v, two63)), And(UF("parse_int_ok", SBool, fv), Eq(UF("parse_int", SInt, fv), v))), fv))
+			e := x.freshTerm("parseerr", SErr)
+			if signed {
+				st.assume(Eq(Eq(e, ErrNil), iok))
+				return &TupleVal{[]Val{pi, e}}
+			}
+			st.assume(Eq(Eq(e, ErrNil), uok))
+			return &TupleVal{[]Val{pu, e}}
+		}
+	}
+	theory["strconv.ParseInt"] = parse(true)
+	theory["strconv.ParseUint"] = parse(false)
+}
